@@ -285,6 +285,10 @@ func genC10(c *Corpus, pl pools, seed uint64, tier string) *RunSpec {
 			default:
 				op.Kind = "validate_cfg"
 			}
+			if op.D >= 0 && r.chance(8) {
+				dlen := c.Profiles[op.P].Data[op.D].Size
+				op.Fault = []string{"trunc:0", fmt.Sprintf("trunc:%d", r.intn(dlen+1)), fmt.Sprintf("ld:%s:%d", ldOps[r.intn(len(ldOps))], r.intn(50)), litDocs[r.intn(len(litDocs))]}[r.intn(4)]
+			}
 			ops = append(ops, op)
 			nOps++
 		}
@@ -295,7 +299,9 @@ func genC10(c *Corpus, pl pools, seed uint64, tier string) *RunSpec {
 	return sp
 }
 
-var faultKinds = []string{"trunc", "trunc0", "ld", "bom", "utf16le"}
+var faultKinds = []string{"trunc", "trunc0", "ld", "bom", "utf16le", "lit"}
+
+var litDocs = []string{"lit:[]", "lit:{}", "lit:7", "lit:null", "lit:[[]]", "lit:{\"@graph\": 7}", "lit:\"text\""}
 
 // genC09: one task, a history of 3..40 operations over 1..3 compiled handles.
 func genC09(c *Corpus, pl pools, seed uint64, tier string, failSites []string) *RunSpec {
@@ -370,6 +376,8 @@ func genC09(c *Corpus, pl pools, seed uint64, tier string, failSites []string) *
 				op.Fault = "bom"
 			case "utf16le":
 				op.Fault = "utf16le"
+			case "lit":
+				op.Fault = litDocs[r.intn(len(litDocs))]
 			}
 		}
 		if r.chance(15) {
